@@ -164,3 +164,25 @@ PROPERTIES["C19"] = {
     "assumptions": ["E1 tracing stub", "E3 ttl_cache model (4 slots, harness clock)", "E6 alloc::fmt::format stubbed (error strings not read)",
                     "clock: verif-hooks set_clock_ms drives get_unix_time_ms; model clock set to the same instant"],
 }
+
+# ------------------------------------------------------------------------------------------ C15
+_c15 = []
+for c in CRATES3:
+    t = "quick" if c == "tcp" else "thorough"
+    _c15.append(H(f"c15::{c}::c15_agree_v4_64", "quick", "every frame of 0..=64 bytes (Ethernet / raw / NULL framing, IHL 0..15), IPv4 view",
+                  "analyzer decodes endpoints e => raw_filter::apply admits under allow-list{e} and rejects under deny-list{e}", timeout_s=900, mem_gb=10))
+    _c15.append(H(f"c15::{c}::c15_agree_v4_96", "thorough", "every frame of 60..=96 bytes, IPv4 view (IP options up to 40 bytes behind Ethernet)", "same", timeout_s=3000, mem_gb=24))
+    _c15.append(H(f"c15::{c}::c15_agree_v6_84", t, "every frame of 40..=84 bytes, IPv6 view", "same", timeout_s=1500, mem_gb=12))
+PROPERTIES["C15"] = {
+    "harnesses": _c15,
+    "explanation": "Decoder-agreement lemma by bounded model checking: over every frame up to the bound, the endpoints the analyzer's own "
+                   "decoder yields (real parse_packet + pnet Ipv4/Ipv6/Tcp views, as process.rs uses them) are the endpoints the real "
+                   "raw_filter::apply decides on, observed through exact allow/deny lists built with the real filter types. Since the filter is "
+                   "stateless and is applied first on every per-packet path, this is what commuting reduces to per frame.",
+    "functions": ["{tcp,http,tls}::raw_filter::apply (extract_quick_info, try_ethernet, try_raw_ip, try_null_datalink, extract_ipv4_info, extract_ipv6_info)",
+                  "{tcp,http,tls}::packet_parser::parse_packet", "pnet Ipv4Packet/Ipv6Packet/TcpPacket::{new,payload,get_*}", "FilterConfig::should_process"],
+    "bounds": "frames <= 64 bytes quick / <= 96 bytes thorough (IPv4), <= 84 bytes (IPv6); unwind 20",
+    "outside": "longer frames (IPv6 behind Ethernet with payload, IPv4 options behind NULL framing above the bound); that the four call sites apply the filter "
+               "first and keep no filter-dependent state is read, not solver-checked; the unified analyzer's own packet_parser copy; worker threads",
+    "assumptions": ["E1 tracing stub"],
+}
